@@ -4,6 +4,7 @@ Import ListNotations.
 From TI Require Import lib.Term lib.TermFacts lib.Rect model.Block proofs.BlockProofs proofs.BlockRect.
 From TI Require model.RenderData proofs.RenderDataProofs.
 From TI Require gen.BlockSrc proofs.BlockSrcTie.
+From TI Require model.BlockSeq model.BlockSeqTie proofs.BlockSeqProofs proofs.BlockSeqTieProofs.
 Open Scope Z_scope.
 
 (** After executing a block render of [rows] (pixel pairs at render resolution, as
@@ -108,3 +109,131 @@ Theorem C02_source_run_boundary :
     = TI.gen.BlockSrc.src_run_boundary alpha c1 c2 ac1 ac2 (p1 p) (p2 p) (a1 p) (a2 p).
 Proof. exact TI.proofs.BlockSrcTie.flush_cond_is_source. Qed.
 Print Assumptions C02_source_run_boundary.
+
+(** *** SEQUENCES of renders in one process ([model/BlockSeq.v]).  The property speaks of every
+    block render the library hands out: also the N-th one of a process, after renders of the
+    same instance, of other instances (of [BlockImage], of subclasses, of other styles) with
+    the same or other settings, after seeks and size changes, for sources whose frames differ
+    in mode.  What the code keeps between renders is, per instance, the selected frame and the
+    size; the model's state is exactly that, [src i n sz] (decoding and resampling, Pillow's)
+    is the pixel content of frame [n] of instance [i] at size [sz], [comp] Pillow's composite.
+    (Statements about a plain render request and about a frame yielded by the image iterator
+    are exported as conjunctions: every exported theorem costs the check a [Print Assumptions].)
+
+    For EVERY sequence of requests and EVERY position in it: the render handed out is the
+    render of that request alone -- of the frame selected by the last seek / iterator position
+    of its own instance and the last size set on its own instance ([sel_pos], [sel_size]:
+    functions of the history), under its own settings; a frame yielded by the image iterator
+    is the render of the frame the iterator asked for. *)
+Theorem C02_seq_output :
+  (forall comp src st0 pre i s post,
+    nth_error (TI.model.BlockSeq.bs_run comp src st0 (pre ++ TI.model.BlockSeq.ORender i s :: post)) (length pre)
+    = Some (Some {| TI.model.BlockSeq.r_inst := i;
+                    TI.model.BlockSeq.r_frame := TI.model.BlockSeq.sel_pos i (TI.model.BlockSeq.pos (st0 i)) pre;
+                    TI.model.BlockSeq.r_size := TI.model.BlockSeq.sel_size i (TI.model.BlockSeq.isize (st0 i)) pre;
+                    TI.model.BlockSeq.r_toks :=
+                      TI.model.BlockSeq.render_of comp
+                        (src i (TI.model.BlockSeq.sel_pos i (TI.model.BlockSeq.pos (st0 i)) pre)
+                               (TI.model.BlockSeq.sel_size i (TI.model.BlockSeq.isize (st0 i)) pre)) s |}))
+  /\
+  (forall comp src st0 pre i n s post,
+    nth_error (TI.model.BlockSeq.bs_run comp src st0 (pre ++ TI.model.BlockSeq.OIterFrame i n s :: post)) (length pre)
+    = Some (Some {| TI.model.BlockSeq.r_inst := i; TI.model.BlockSeq.r_frame := n;
+                    TI.model.BlockSeq.r_size := TI.model.BlockSeq.sel_size i (TI.model.BlockSeq.isize (st0 i)) pre;
+                    TI.model.BlockSeq.r_toks :=
+                      TI.model.BlockSeq.render_of comp
+                        (src i n (TI.model.BlockSeq.sel_size i (TI.model.BlockSeq.isize (st0 i)) pre)) s |})).
+Proof. exact TI.proofs.BlockSeqProofs.seq_outputs. Qed.
+Print Assumptions C02_seq_output.
+
+(** [C02_block_pixels_exact] and [C02_source_pair_exact] lifted to every element of every
+    sequence: the cell at line [a], column [b] of the output of ANY request of ANY sequence
+    shows exactly what the property demands of the two SOURCE pixels [(a, b)] of the frame
+    selected for that request, under the request's own settings (requested background colour,
+    threshold, terminal background at that moment).  First conjunct: a render request without
+    the kitty work-around; second: a frame yielded by the image iterator, idem; third: with
+    the work-around, [Block.expect] (see [C02_workaround_bounded]) of the render data of the
+    selected frame's source pixel pair *)
+Theorem C02_seq_source_pixels_exact :
+  (forall comp src st0 pre i s post (lm : Z) (w : nat) (t : term) (a b : nat),
+    let f := src i (TI.model.BlockSeq.sel_pos i (TI.model.BlockSeq.pos (st0 i)) pre)
+                   (TI.model.BlockSeq.sel_size i (TI.model.BlockSeq.isize (st0 i)) pre) in
+    TI.model.BlockSeq.st_kitty s = false ->
+    parser t = Ground -> col t = lm -> (0 < w)%nat ->
+    (forall r, In r (TI.model.BlockSeq.f_rows f) -> length r = w) ->
+    (a < length (TI.model.BlockSeq.f_rows f))%nat -> (b < w)%nat ->
+    exists out line ul,
+      nth_error (TI.model.BlockSeq.bs_run comp src st0 (pre ++ TI.model.BlockSeq.ORender i s :: post)) (length pre)
+      = Some (Some out) /\
+      nth_error (TI.model.BlockSeq.f_rows f) a = Some line /\ nth_error line b = Some ul /\
+      visual (view (log (exec lm t (TI.model.BlockSeq.r_toks out))) (row t + Z.of_nat a) (lm + Z.of_nat b))
+      = Some (TI.proofs.RenderDataProofs.col_of (fst (TI.model.BlockSeq.shown_pair comp f s ul)),
+              TI.proofs.RenderDataProofs.col_of (snd (TI.model.BlockSeq.shown_pair comp f s ul))))
+  /\
+  (forall comp src st0 pre i n s post (lm : Z) (w : nat) (t : term) (a b : nat),
+    let f := src i n (TI.model.BlockSeq.sel_size i (TI.model.BlockSeq.isize (st0 i)) pre) in
+    TI.model.BlockSeq.st_kitty s = false ->
+    parser t = Ground -> col t = lm -> (0 < w)%nat ->
+    (forall r, In r (TI.model.BlockSeq.f_rows f) -> length r = w) ->
+    (a < length (TI.model.BlockSeq.f_rows f))%nat -> (b < w)%nat ->
+    exists out line ul,
+      nth_error (TI.model.BlockSeq.bs_run comp src st0 (pre ++ TI.model.BlockSeq.OIterFrame i n s :: post)) (length pre)
+      = Some (Some out) /\
+      nth_error (TI.model.BlockSeq.f_rows f) a = Some line /\ nth_error line b = Some ul /\
+      visual (view (log (exec lm t (TI.model.BlockSeq.r_toks out))) (row t + Z.of_nat a) (lm + Z.of_nat b))
+      = Some (TI.proofs.RenderDataProofs.col_of (fst (TI.model.BlockSeq.shown_pair comp f s ul)),
+              TI.proofs.RenderDataProofs.col_of (snd (TI.model.BlockSeq.shown_pair comp f s ul))))
+  /\
+  (forall comp src st0 pre i s post (lm : Z) (w : nat) (t : term) (a b : nat),
+    let f := src i (TI.model.BlockSeq.sel_pos i (TI.model.BlockSeq.pos (st0 i)) pre)
+                   (TI.model.BlockSeq.sel_size i (TI.model.BlockSeq.isize (st0 i)) pre) in
+    parser t = Ground -> col t = lm -> (0 < w)%nat ->
+    (forall r, In r (TI.model.BlockSeq.f_rows f) -> length r = w) ->
+    (a < length (TI.model.BlockSeq.f_rows f))%nat -> (b < w)%nat ->
+    exists out line ul,
+      nth_error (TI.model.BlockSeq.bs_run comp src st0 (pre ++ TI.model.BlockSeq.ORender i s :: post)) (length pre)
+      = Some (Some out) /\
+      nth_error (TI.model.BlockSeq.f_rows f) a = Some line /\ nth_error line b = Some ul /\
+      visual (view (log (exec lm t (TI.model.BlockSeq.r_toks out))) (row t + Z.of_nat a) (lm + Z.of_nat b))
+      = Some (Block.expect (TI.model.RenderData.alpha_mode (TI.model.BlockSeq.f_has_alpha f) (TI.model.BlockSeq.st_alpha s))
+                           (TI.model.BlockSeq.st_kitty s) (TI.model.BlockSeq.st_termbg s)
+                           (TI.model.RenderData.render_pair comp (TI.model.BlockSeq.f_has_alpha f)
+                              (TI.model.BlockSeq.st_alpha s) (TI.model.BlockSeq.st_termbg s) (fst ul) (snd ul)))).
+Proof. exact TI.proofs.BlockSeqProofs.seq_pixels. Qed.
+Print Assumptions C02_seq_source_pixels_exact.
+
+(** two requests anywhere in any two sequences about the same frame at the same size with
+    the same settings hand out the same render; and the requests made on OTHER instances (and
+    anything else that happened in the process) are irrelevant to a request *)
+Theorem C02_seq_requests_independent :
+  (forall comp src st0 pre i s post st0' pre' post',
+    TI.model.BlockSeq.sel_pos i (TI.model.BlockSeq.pos (st0 i)) pre
+    = TI.model.BlockSeq.sel_pos i (TI.model.BlockSeq.pos (st0' i)) pre' ->
+    TI.model.BlockSeq.sel_size i (TI.model.BlockSeq.isize (st0 i)) pre
+    = TI.model.BlockSeq.sel_size i (TI.model.BlockSeq.isize (st0' i)) pre' ->
+    nth_error (TI.model.BlockSeq.bs_run comp src st0 (pre ++ TI.model.BlockSeq.ORender i s :: post)) (length pre)
+    = nth_error (TI.model.BlockSeq.bs_run comp src st0' (pre' ++ TI.model.BlockSeq.ORender i s :: post')) (length pre'))
+  /\
+  (forall comp src st0 pre i s post,
+    nth_error (TI.model.BlockSeq.bs_run comp src st0 (pre ++ TI.model.BlockSeq.ORender i s :: post)) (length pre)
+    = nth_error (TI.model.BlockSeq.bs_run comp src st0
+                   (filter (TI.proofs.BlockSeqProofs.concerns i) pre ++ [TI.model.BlockSeq.ORender i s]))
+                (length (filter (TI.proofs.BlockSeqProofs.concerns i) pre))).
+Proof. exact TI.proofs.BlockSeqProofs.seq_requests_independent. Qed.
+Print Assumptions C02_seq_requests_independent.
+
+(** soundness of the executable sequence comparison the correspondence runs ([qcheck]): for a
+    sequence it finds nothing in, the OBSERVED output of a render request whose selected source
+    frame is known is [render_of] of the frame selected by the history before it -- the term
+    the theorems above are about *)
+Theorem C02_seq_tie_sound :
+  forall c pre i s post ob,
+    TI.model.BlockSeqTie.qcheck c = 0%nat ->
+    map fst (TI.model.BlockSeqTie.q_elems c) = pre ++ TI.model.BlockSeq.ORender i s :: post ->
+    nth_error (TI.model.BlockSeqTie.q_elems c) (length pre) = Some (TI.model.BlockSeq.ORender i s, Some ob) ->
+    let n := TI.model.BlockSeq.sel_pos i 0%nat pre in
+    let sz := TI.model.BlockSeq.sel_size i (0, 0)%nat pre in
+    forall f, TI.model.BlockSeqTie.lookup (TI.model.BlockSeqTie.q_tbl c) (i, n, sz) = Some f ->
+    TI.model.BlockSeqTie.o_toks ob = TI.model.BlockSeq.render_of TI.model.RenderData.comp_exact f s.
+Proof. exact TI.proofs.BlockSeqTieProofs.qcheck_observed_is_render_of. Qed.
+Print Assumptions C02_seq_tie_sound.
